@@ -158,6 +158,53 @@ def hashable_kinds(src):
     return ok
 
 
+COVERS = sym.fn("COVERS", sym.Ref, NAMESET, sym.B)
+
+
+def _install_cov_rules():
+    from .specfns import rule, kids
+    from .seqtheory import register_vector, named_forall, VLEN, ELEMV, ELEME, FNAME
+
+    @rule("cov", "Constant", "Parameter")
+    def _(sp, r, DS):
+        sp.ip.path.assume(COVERS(r, DS))
+
+    @rule("cov", "Variable")
+    def _(sp, r, DS):
+        sp.ip.path.assume(COVERS(r, DS) == z3.Select(DS, sp.S.F("name", sym.Name)(r)))
+
+    @rule("cov", "BinaryOp")
+    def _(sp, r, DS):
+        l, rr, _ = kids(sp, r)
+        sp.ip.path.assume(COVERS(r, DS) == z3.And(COVERS(l, DS), COVERS(rr, DS)))
+
+    @rule("cov", "UnaryOp")
+    def _(sp, r, DS):
+        sp.ip.path.assume(COVERS(r, DS) == COVERS(kids(sp, r)[2], DS))
+
+    def vec_rule(fields):
+        def f(sp, r, DS):
+            conj = []
+            for fld in fields:
+                v = sp.S.F(fld, sym.Ref)(r)
+                register_vector(sp, v)
+                n = VLEN(v)
+                allc = named_forall(sp.ip, "COVALL", [v, DS], n,
+                                    lambda k, v=v: z3.If(sp.K.is_kind(v, "VectorVariable"), z3.Select(DS, FNAME(ELEMV(v, k))),
+                                                         COVERS(ELEME(v, k), DS)))
+                conj.append(allc(n))
+            sp.ip.path.assume(COVERS(r, DS) == z3.And(*conj))
+        return f
+    for k in ("VectorSum", "LinearCombination", "L2Norm", "L1Norm", "VectorPowerSum", "VectorUnarySum", "QuadraticForm",
+              "ElementwisePower", "ElementwiseUnary"):
+        rule("cov", k)(vec_rule(["vector"]))
+    rule("cov", "VectorExpressionSum")(vec_rule(["expression"]))
+    rule("cov", "DotProduct")(vec_rule(["left", "right"]))
+
+
+_install_cov_rules()
+
+
 def install(reg, src):
     from .analysis_c import setup_node
     cases = compile_cases(src)
@@ -202,47 +249,13 @@ def install(reg, src):
                 c.ensures("value", post)
         return _
 
-    COVERS = sym.fn("COVERS", sym.Ref, NAMESET, sym.B)
-
     def covers(sp, e, IDX):
         """COVERS(e, names): vars(e) is a subset of the name set.  Unfolded structurally like the other spec functions."""
+        from .specfns import unfold
         r = sp.ref(e)
         DS = DOMOF(IDX) if IDX.sort() == IDXS else IDX
-        unfold_covers(sp, r, DS)
+        unfold(sp, "cov", r, (DS,))
         return COVERS(r, DS)
-
-    def unfold_covers(sp, r, IDX):
-        p = sp.ip.path
-        kind = p.kinds.get(str(r))
-        key = f"covers:{r}:{IDX}"
-        if kind is None or key in p.unfolded:
-            return
-        p.unfolded.add(key)
-        S, K = sp.S, sp.K
-        F = lambda f: S.F(f, sym.Ref)(r)
-        from .seqtheory import register_vector, named_forall, VLEN, ELEMV, ELEME, FNAME
-        if kind in ("Constant", "Parameter"):
-            p.assume(COVERS(r, IDX))
-        elif kind == "Variable":
-            p.assume(COVERS(r, IDX) == z3.Select(IDX, S.F("name", sym.Name)(r)))
-        elif kind == "BinaryOp":
-            p.assume(COVERS(r, IDX) == z3.And(COVERS(F("left"), IDX), COVERS(F("right"), IDX)))
-        elif kind == "UnaryOp":
-            p.assume(COVERS(r, IDX) == COVERS(F("operand"), IDX))
-        else:
-            fields = {"DotProduct": ["left", "right"], "VectorExpressionSum": ["expression"]}.get(kind, ["vector"])
-            if kind in ("MatrixSum", "FrobeniusNorm"):
-                return
-            conj = []
-            for f in fields:
-                v = F(f)
-                register_vector(sp, v)
-                n = VLEN(v)
-                allc = named_forall(sp.ip, "COVALL", [v, IDX], n,
-                                    lambda k, v=v: z3.If(K.is_kind(v, "VectorVariable"), z3.Select(IDX, FNAME(ELEMV(v, k))),
-                                                         COVERS(ELEME(v, k), IDX)))
-                conj.append(allc(n))
-            p.assume(COVERS(r, IDX) == z3.And(*conj))
 
     eval_contract(f"{M}:_build_evaluator", 1)
     eval_contract(f"{M}:_build_evaluator_iterative", 1,
